@@ -9,7 +9,7 @@ import impl
 RULE = ("random programs over {helper call, raise, with <solver>: body, try: body except} with depth <= 6 (thorough 8), "
         "3 solvers used re-entrantly, 15 helper kinds (put with and without an immediate connection); distinct = distinct program tree; non-trivial = contains a "
         "nested with-block and at least one helper")
-TRUSTED = ["translator harness/translate/tables.py (syntactic read of __enter__/__exit__ and of `sol_list[...]` uses)",
+TRUSTED = ["translator harness/translate/tables.py + probes.py (the with-protocol and every helper kind executed on a re-entrant stack; facts read off the effect)",
            "CPython's `with` protocol (__exit__ is called on normal and exceptional exit; exceptions propagate unless suppressed)"]
 ASSUMPTIONS = ["helpers are observed through the solver state they modify (structures, pin_mapping, default_params, monitor_st, name of the solved model)"]
 EXPLANATION = "C17_balanced / C17_innermost by structural induction on programs; helper table by `decide`"
